@@ -43,7 +43,9 @@ CHECKS = {
              "observation (objects and all attributes as seen by four sessions, validity of known handles, file names/modes/contents of the token directory "
              "without generation counters) must be identical to the one taken before the call. No expected error codes are used.",
         note="Breakage menu: bad entry at first/middle/last position (10 kinds), every entry dropped, oversize template, RO/public/SO session, bad mechanism "
-             "parameters, every truncation/byte corruption of wrapped blobs, stale/foreign handles; file store; fs-fault injection is not part of this check yet."),
+             "parameters, every truncation/byte corruption of wrapped blobs, stale/foreign handles; file store. Fault clause (checks/fsfault.py): every file-system syscall of every writing call fails once with each realistic errno "
+             "under fsx; when the call returns an error, another session, a fresh process and the list of object files must show the state before the call. 72 outcomes of the "
+             "non-atomic file store protocol (half-created object left behind, cached object invalidated, partial destroy) are genuine defects listed in known_findings.json."),
     "C04": dict(
         category="model_checking", design_ref="DESIGN.md 3/C04",
         technique="explicit-state BFS over PIN-change histories on the real library with an exhaustive if-and-only-if login probe over a constructed candidate alphabet in every changed state (same instance, after re-initialisation, new process)",
@@ -85,7 +87,9 @@ CHECKS = {
              "copy, set (shorter, longer, ladder values), destroy and session objects up to depth 3 (quick) / 4 (thorough) is executed; in each state all "
              "attribute values must agree between the running instance, a restarted instance and the decoder; golden file and SQLite tokens from the pinned "
              "commit must open with their PINs, return exactly the recorded values and stay modifiable.",
-        note="Histories on the file store (SQLite through its golden fixture); fs-fault injection not included yet; trusted base: storefmt.py, refsh."),
+        note="Histories on the file store (SQLite through its golden fixture). Fault clause (checks/fsfault.py): every file-system syscall of create / set / destroy / copy / generate / "
+             "unwrap (thorough: also big data object, shorter value, key pair, derive) fails once with each realistic errno under fsx (1 655 injections quick); a call that returns CKR_OK "
+             "must leave a fresh process with exactly what the caller sees. One defect repaired (unchecked flush). Trusted base: storefmt.py, refsh, fsx."),
     "C02": dict(
         category="model_checking", design_ref="DESIGN.md 3/C02",
         technique="explicit-state BFS over (origin x key kind x requested flags) roots and set/copy/concatenate histories on the real library; in every state every secret attribute is read in every template/buffer shape and the key is wrapped under trusted/untrusted keys with every wrap mechanism, against the sticky-protection model plus a byte-taint scan",
@@ -206,7 +210,7 @@ def main():
         "setup_cmd": "python3 tools/build_sut.py ossl-asan ossl-plain botan-plain ref fsx",
         "hooks": {"guard": "SOFTHSM_VERIF", "enable": "tools/build_sut.py passes -DSOFTHSM_VERIF to every variant it compiles from /repo's working tree",
                   "baseline_off_cmd": "cmake --build /repo/_build && ctest --test-dir /repo/_build -j8 --timeout 900",
-                  "source_commits": [], "fix_commits": ["a80c8a6", "ba231e7", "6bd3dce", "e87af21", "bea9994", "588c9b7", "ceb5015", "38ed9d5", "d3eb7f4", "bf60869", "58c10b5", "813a6d6", "2adb934", "9affe31", "8d94e13", "fd7cd14", "084c459"], "add_only": True},
+                  "source_commits": [], "fix_commits": ["96a30d4", "a80c8a6", "ba231e7", "6bd3dce", "e87af21", "bea9994", "588c9b7", "ceb5015", "38ed9d5", "d3eb7f4", "bf60869", "58c10b5", "813a6d6", "2adb934", "9affe31", "8d94e13", "fd7cd14", "084c459"], "add_only": True},
         "engines": [
             {"name": "p11sh", "path": "engine/p11sh", "serves_properties": sorted(CHECKS), "kind_free_text": "PKCS#11 shell linked statically against the SUT; SNAP/BACK process snapshots; guard pages + canaries around every buffer"},
             {"name": "p11mc", "path": "py/p11mc", "serves_properties": sorted(CHECKS), "kind_free_text": "explicit-state explorer (level-synchronous BFS with replay-to-state, unmerged DFS), reference models, evidence/findings glue"},
